@@ -141,6 +141,7 @@ class FuncTranslator:
         self.uses_today = False
         self.tuple_lits = {}
         self.fdeps = set()         # modules / registries this function's Lean text refers to
+        self.lambdas = {}          # local `name = lambda ...` definitions (inlined)
         self.match_pat = {}        # python variable name -> compiled pattern its match object came from
         self.last_pattern = None
 
@@ -725,6 +726,33 @@ class FuncTranslator:
         args = e.args
         if n in EXC:
             return (EXC[n], 'exc')
+        if n in self.lambdas and not e.keywords:
+            lam = self.lambdas[n]
+            params = [a.arg for a in lam.args.args]
+            if len(params) != len(args) or lam.args.defaults or lam.args.vararg:
+                raise Unsupported('lambda call arity')
+            saved = dict(self.env)
+            binds = []
+            for pn, a in zip(params, args):
+                v, t = self.expr(a)
+                tmp = self.fresh('l_' + pn)
+                binds.append((tmp, v, t))
+            for pn, (tmp, v, t) in zip(params, binds):
+                self.env[pn] = (tmp, t)
+            body, bt = self.expr(lam.body)
+            self.env = saved
+            code = body
+            for tmp, v, t in reversed(binds):
+                code = '(let %s : %s := %s; %s)' % (tmp, lean_type(t), v, code)
+            return (code, bt)
+        if n == 'map' and len(args) == 2 and not e.keywords and isinstance(args[0], ast.Name):
+            # map(f, xs) == [f(x) for x in xs]
+            comp = ast.ListComp(elt=ast.Call(func=args[0], args=[ast.Name(id='m__x', ctx=ast.Load())], keywords=[]),
+                                generators=[ast.comprehension(target=ast.Name(id='m__x', ctx=ast.Store()), iter=args[1], ifs=[], is_async=0)])
+            return self.comprehension(comp)
+        if n == 'pow' and len(args) == 2 and not e.keywords:
+            a, b = [self.expr_int(x) for x in args]
+            return ('(← Py.pypow %s %s)' % (a, b), 'int')
         if n == 'len':
             (v, t), = self.args_noKw(e, 1)
             if t == 'str' or is_list(t) or is_dict(t):
@@ -755,6 +783,10 @@ class FuncTranslator:
                 return ('(Py.strOfInt %s)' % par(v), 'str')
             if t == 'str':
                 return (v, 'str')
+            if t == 'opt[str]':
+                return ('(match %s with | some s__ => s__ | none => Py.ofString "None")' % par(v), 'str')
+            if t == 'bool':
+                return ('(if %s then Py.ofString "True" else Py.ofString "False")' % v, 'str')
             raise Unsupported('str of ' + t)
         if n == 'bool':
             (v, t), = self.args_noKw(e, 1)
@@ -1250,6 +1282,9 @@ class FuncTranslator:
                 ln, dt2 = self.lookup(name)
                 k2, v2 = dict_parts(dt2)
                 return [p + '%s := Py.dictSet %s %s %s' % (ln, ln, par(self.coerce(kv, kt, k2)), par(self.coerce(v, t, v2)))]
+            if is_list(dt):
+                idx = self.expr_int(target.slice)
+                return [p + '%s := (← Py.listSet %s %s %s)' % (ln, ln, idx, par(self.coerce(v, t, elem(dt))))]
             raise Unsupported('subscript store on ' + dt)
         raise Unsupported('assignment target ' + type(target).__name__)
 
@@ -1301,7 +1336,19 @@ class FuncTranslator:
 
     def s_Assign(self, st, ind):
         if len(st.targets) != 1:
-            raise Unsupported('chained assignment')
+            # a = b = value
+            out = []
+            first = st.targets[0]
+            out += self.s_Assign(ast.Assign(targets=[first], value=st.value), ind)
+            for t in st.targets[1:]:
+                if not isinstance(first, ast.Name):
+                    raise Unsupported('chained assignment to non-names')
+                out += self.s_Assign(ast.Assign(targets=[t], value=ast.Name(id=first.id, ctx=ast.Load())), ind)
+            return out
+        if isinstance(st.value, ast.Lambda) and isinstance(st.targets[0], ast.Name):
+            # local helper `f = lambda x: ...`: inlined at its call sites
+            self.lambdas[st.targets[0].id] = st.value
+            return []
         pp = self.pop_pattern(st, ind)
         if pp is not None:
             return pp
@@ -1356,6 +1403,25 @@ class FuncTranslator:
         fixed = getattr(self.sig, 'fixed', None) or {}
         if isinstance(st.test, ast.Name) and st.test.id in fixed and st.test.id not in assigned_names(self.fn):
             return self.stmts(st.body if fixed[st.test.id] else st.orelse, ind)
+        t_ = st.test
+        if (isinstance(t_, ast.Compare) and len(t_.ops) == 1 and isinstance(t_.ops[0], ast.NotIn) and isinstance(t_.left, ast.Constant)
+                and t_.left.value is None and isinstance(t_.comparators[0], ast.Tuple)
+                and all(isinstance(x, ast.Name) and self.lookup(x.id) and is_opt(self.lookup(x.id)[1]) for x in t_.comparators[0].elts)):
+            names = [x.id for x in t_.comparators[0].elts]
+            saved = dict(self.env)
+            tmps = []
+            for nm in names:
+                ln, lt = self.lookup(nm)
+                tmp = self.fresh('nn_' + nm)
+                tmps.append((ln, tmp))
+                self.env[nm] = (tmp, opt_inner(lt))
+            out = [p + 'match %s with' % ', '.join(ln for ln, _ in tmps),
+                   p + '| %s =>' % ', '.join('some %s' % tmp for _, tmp in tmps)]
+            out += self.stmts(st.body, ind + 1) or [p + '  pure ()']
+            self.env = saved
+            out += [p + '| %s =>' % ', '.join('_' for _ in tmps)]
+            out += (self.stmts(st.orelse, ind + 1) if st.orelse else []) or [p + '  pure ()']
+            return out
         c, ct = self.expr(st.test)
         cond = self.truthy(c, ct)
         out = [p + 'if %s then' % cond]
@@ -1423,9 +1489,12 @@ class FuncTranslator:
         p = '  ' * ind
         if st.finalbody:
             raise Unsupported('try/finally')
-        body = list(st.body) + list(st.orelse or [])
+        body = list(st.body)
+        after = []
         if st.orelse:
-            raise Unsupported('try/else')
+            if not all(always_exits(h.body) for h in st.handlers):
+                raise Unsupported('try/else with a handler that falls through')
+            after = list(st.orelse)     # every handler leaves the function: the else-block simply follows
         out = [p + 'try'] + (self.stmts(body, ind + 1) or [p + '  pure ()'])
         out += [p + 'catch e__ =>']
         first = True
@@ -1458,6 +1527,8 @@ class FuncTranslator:
             out += [p + '  Py.raise e__']
         else:
             out += [p + '  else', p + '    Py.raise e__']
+        if after:
+            out += self.stmts(after, ind)
         return out
 
     def s_With(self, st, ind):
